@@ -638,7 +638,8 @@ func (m *M) runOp(name string) error {
 			}
 			nv := v + inc
 			if (inc > 0 && nv < v) || (inc < 0 && nv > v) {
-				return &ErrUnsupported{"for control variable overflows"}
+				// the next value lies beyond the integer range, hence beyond the limit
+				return nil
 			}
 			v = nv
 		}
@@ -922,6 +923,7 @@ func (m *M) runOp(name string) error {
 			return &ErrUnsupported{"type of null"}
 		}
 		// The attribute of the returned name is not compared (PLRM: executable).
+		m.drop(1) // PLRM: any type -> name
 		return m.push(Name{S: t})
 	case "closefile", "readstring", "eexec":
 		return &ErrUnsupported{name + " (file operators are checked by C05)"}
